@@ -1045,6 +1045,17 @@ def rule_L8c(ctx):
     ctx.ob("L8c", atc, "AudioTrack defaults: 44100 Hz, 2 bytes, 2 channels", ok, f"{dfl}", inst="AudioTrack-defaults")
 
 
+def rule_L6e(ctx):
+    """the loop-entry part of L6 (C05): an AKAI loop entry decodes to a start that is never negative - a negative loop start makes the
+    WAV build of that sample fail and the export of the directory stop there"""
+    before = len(ctx.obs)
+    rule_L6(ctx)
+    keep = [o for o in ctx.obs[before:] if o.inst.startswith("LoopEntry.")]
+    for o in keep:
+        o.rule = "L6e"
+    ctx.obs[before:] = keep
+
+
 # ------------------------------------------------------------------------ L9
 def rule_L9(ctx):
     """the AKAI file table is scanned over the whole directory stream: the number of entries looked at is the stream's own
